@@ -17,26 +17,26 @@ import Manticore.Lemmas.SmbLocality
 namespace Manticore.C04
 open Manticore Manticore.SmbIR Manticore.Gen.SmbCommands
 
-/-- the commands whose two programs are NOT established to mirror each other: exactly these 25.
-    For the other 90 structures `Mirror` holds: same slots, same order, same widths, same byte order and
+/-- the commands whose two programs are NOT established to mirror each other: exactly these 19.
+    For the other 96 structures `Mirror` holds: same slots, same order, same widths, same byte order and
     same length dependencies in Marshal and Unmarshal, no field changed after it was emitted, offsets
     reset between the blocks, lengths read before the buffers they describe, guards no larger than the
     reads they protect, every declared field on the wire, and — for the AndX commands — the AndX block
     read from the head of the parameter stream and exactly its four bytes cut off before the first field
     is read.  Swapping two reads, changing a width or an endianness on one side only, dropping a field,
-    an `offset = 0` or the AndX stanza (or cutting off another number of bytes) in any of the 90 makes
+    an `offset = 0` or the AndX stanza (or cutting off another number of bytes) in any of the 96 makes
     this fail to check.  Ten of the sixteen AndX commands are inside (the three without fields,
     NtCreateAndxRequest/Response, ReadAndxRequest/Response, TreeConnectAndxRequest/Response,
-    WriteAndxResponse); the other six have loops, padding arithmetic, a conditional field or a dropped
-    field. -/
+    WriteAndxResponse); the other six have loops, padding arithmetic or an optional field and are in the loop
+    fragment (`loop_mirror_commands`).  A nested value decoded from the whole block right behind `offset = 0` is read
+    as decoded from `blk[offset:]` (`normWhole`: ReadResponse, FindCloseResponse, WriteAndUnlockRequest). -/
 theorem non_mirror_commands :
     (commands.filter (fun c => !Mirror c)).map (·.name) =
-      ["CreateTemporaryResponse", "FindCloseResponse", "FindResponse", "FindUniqueResponse", "LockAndReadResponse",
-       "LockingAndxRequest", "NegotiateRequest", "NegotiateResponse", "OpenAndxRequest", "OpenAndxResponse",
-       "QueryInformation2Response", "QueryInformationResponse", "ReadRawRequest", "ReadResponse", "RenameRequest",
-       "SessionSetupAndxRequest", "SessionSetupAndxResponse", "TransactionRequest", "TreeConnectRequest",
-       "WriteAndCloseRequest", "WriteAndUnlockRequest", "WriteAndxRequest", "WriteMpxRequest", "WriteRawRequest",
-       "WriteRequest"] := by decide +kernel
+      ["FindResponse", "FindUniqueResponse", "LockAndReadResponse", "LockingAndxRequest",
+       "NegotiateRequest", "NegotiateResponse", "OpenAndxRequest", "OpenAndxResponse",
+       "QueryInformationResponse", "ReadRawRequest", "RenameRequest", "SessionSetupAndxRequest",
+       "SessionSetupAndxResponse", "TransactionRequest", "WriteAndCloseRequest",
+       "WriteAndxRequest", "WriteMpxRequest", "WriteRawRequest", "WriteRequest"] := by decide +kernel
 
 /-- **every AndX command consumes its AndX block**: each of the 16 structures whose `IsAndX` returns
     true has the stanza (early returns on an empty parameter stream only, `AndX.Unmarshal` of the
@@ -46,19 +46,13 @@ theorem andx_consumed :
       (commands.filter (·.isAndX)).length = 16 := by decide +kernel
 
 /-- the recorded round-trip findings, decided on the extracted programs: exactly these commands and
-    reasons (KNOWN_FINDINGS.txt lists the same keys).  A new structural defect in another command
-    changes this list. -/
+    reasons (KNOWN_FINDINGS.txt lists the same keys): the two 43-byte entry windows, which are MS-CIFS's size.  The
+    other thirteen entries this list once had were repaired in the repository (fixes/C04-*.diff): a field never
+    marshalled or never unmarshalled, nested strings decoded from the start of the block, an optional field under a
+    word count never reached or not reset.  A new structural defect in another command changes this list. -/
 theorem known_roundtrip_findings :
     commands.filterMap (fun c => (knownRtKind c).map (fun k => (k, c.name))) =
-      [(.fieldNotUnmarshalled, "CreateTemporaryResponse"), (.fixedEntrySize, "FindResponse"), (.fixedEntrySize, "FindUniqueResponse"),
-       (.fieldNotMarshalled, "LockAndReadResponse"),
-       (.fieldNotMarshalled, "NegotiateRequest"), (.fieldNotMarshalled, "NegotiateResponse"),
-       (.fieldNotMarshalled, "OpenAndxResponse"),
-       (.fieldNotUnmarshalled, "QueryInformation2Response"), (.fieldNotMarshalled, "QueryInformationResponse"),
-       (.conditionalField, "ReadRawRequest"),
-       (.fieldNotMarshalled, "ReadResponse"), (.readsWholeBuffer, "TreeConnectRequest"),
-       (.conditionalField, "WriteAndCloseRequest"), (.conditionalField, "WriteAndxRequest"),
-       (.conditionalField, "WriteRawRequest")] := by decide +kernel
+      [(.fixedEntrySize, "FindResponse"), (.fixedEntrySize, "FindUniqueResponse")] := by decide +kernel
 
 /-- **every buffer is sized by the field documented to size it**: the (command, buffer, length) and
     (command, list, count) relations the regenerated unmarshal programs rely on are exactly the pinned
@@ -147,7 +141,7 @@ theorem mirror_types_lawful :
     commands.all (fun c => !Mirror c || c.subTypes.all (Manticore.SmbCodecs.lawfulTypes.contains ·)) = true := by
   decide +kernel
 
-/-- **C04 for the regenerated commands.**  Each of the 90 `Mirror` command structures of this tree
+/-- **C04 for the regenerated commands.**  Each of the 96 `Mirror` command structures of this tree
     round-trips every declared field and its AndX block, for all internally consistent field values and all initial
     states of the receiver, with the C06 models as nested codecs. -/
 theorem smb_roundtrip (c : Cmd) (hmem : c ∈ commands) (hm : Mirror c = true) (env0 env : Env)
@@ -185,7 +179,7 @@ theorem mirror_reencodable :
     commands.all (fun c => !Mirror c || (Reencodable c && c.fmtTypes.all (· == "SMB_STRING"))) = true := by
   decide +kernel
 
-/-- **C04, re-encoding, for the regenerated commands**: for each of the 90 `Mirror` structures,
+/-- **C04, re-encoding, for the regenerated commands**: for each of the 96 `Mirror` structures,
     unmarshalling the bytes of a consistent structure and marshalling the result gives the same bytes. -/
 theorem smb_reencode (c : Cmd) (hmem : c ∈ commands) (hm : Mirror c = true) (env0 env : Env)
     (hc : consistent Manticore.SmbCodecs.std c env = true) :
@@ -200,38 +194,42 @@ theorem smb_reencode (c : Cmd) (hmem : c ∈ commands) (hm : Mirror c = true) (e
 
 /-! ## the loop fragment: list fields marshalled by a `range` loop and read back by a counted loop -/
 
-/-- **Which commands the loop fragment adds**: exactly these eight satisfy `MirrorLoops` without satisfying
+/-- **Which commands the loop fragment adds**: exactly these thirteen satisfy `MirrorLoops` without satisfying
     `Mirror`.  LockingAndxRequest: two lists of LOCKING_ANDX_RANGE64 written by `range` loops and read back by
     counted loops running to `NumberOfRequestedUnlocks` / `NumberOfRequestedLocks` through 20-byte windows;
-    OpenAndxRequest: the fixed array `Reserved [2]USHORT` written by a `range` loop and filled in place;
+    OpenAndxRequest, OpenAndxResponse, LockAndReadResponse, QueryInformationResponse: the fixed array `Reserved [n]USHORT`
+    written by a `range` loop and filled in place (the last three since fixes/C04-reserved-words-marshalled.diff and
+    fixes/C04-openandx-response-nmpipe-reserved.diff);
     TransactionRequest: `Setup []USHORT` read back by a loop running to `SetupCount` into a freshly made list;
-    WriteAndxRequest, WriteRawRequest: `OffsetHigh` written iff non-zero as the last parameter field and read under
-    `WordCount == 14`, the word count the block has with it (12 without);
+    WriteAndxRequest, WriteRawRequest, ReadRawRequest: `OffsetHigh` written iff non-zero as the last parameter field,
+    set to zero by Unmarshal and then read under `WordCount == 14` (10 for READ_RAW), the word count the block has
+    with it (12, 8 without);
+    WriteAndCloseRequest: the optional *array* `Reserved [3]ULONG`, written iff one element is non-zero, zeroed by
+    Unmarshal and then read under `WordCount == 14` (8 without; the 8-byte `LastWriteTime` in front of it counts with
+    its `fixedSize`);
     SessionSetupAndxRequest, SessionSetupAndxResponse: `Pad` read with a length computed by arithmetic
     (`UnicodePasswordLen` rounded up to even; one byte when `len(P)+3` is odd);
     WriteMpxRequest (and WriteAndxRequest): the last buffer read not followed by an advance of `offset`. -/
 theorem loop_mirror_commands :
     (commands.filter (fun c => MirrorLoops c && !Mirror c)).map (·.name) =
-      ["LockingAndxRequest", "OpenAndxRequest", "SessionSetupAndxRequest", "SessionSetupAndxResponse",
-       "TransactionRequest", "WriteAndxRequest", "WriteMpxRequest", "WriteRawRequest"] := by decide +kernel
+      ["LockAndReadResponse", "LockingAndxRequest", "OpenAndxRequest", "OpenAndxResponse",
+       "QueryInformationResponse", "ReadRawRequest", "SessionSetupAndxRequest",
+       "SessionSetupAndxResponse", "TransactionRequest", "WriteAndCloseRequest",
+       "WriteAndxRequest", "WriteMpxRequest", "WriteRawRequest"] := by decide +kernel
 
-/-- `MirrorLoops` extends `Mirror`: each of the 90 `Mirror` commands satisfies it -/
+/-- `MirrorLoops` extends `Mirror`: each of the 96 `Mirror` commands satisfies it -/
 theorem mirror_loops_extends : commands.all (fun c => !Mirror c || MirrorLoops c) = true := by decide +kernel
 
-/-- **What is still outside**: exactly these 17 commands satisfy neither predicate; for them the round trip is
-    decided by the correspondence runs only.  Thirteen carry a recorded structural finding
-    (`known_roundtrip_findings`: a field never marshalled / never unmarshalled, the whole buffer read three times,
-    `OffsetHigh` of ReadRawRequest under a word count its own Marshal never reaches, the optional array of
-    WriteAndCloseRequest, a 43-byte window for 53-byte entries); of the other four FindCloseResponse and
-    WriteAndUnlockRequest decode a nested string from the whole block instead of from `offset`, RenameRequest
-    reads its attributes without checking the error or using the count, and WriteRequest puts its buffer ahead of
-    the parameter block. -/
+/-- **What is still outside**: exactly these 6 commands satisfy neither predicate; for them the round trip is
+    decided by the correspondence runs only.  Two carry the recorded structural finding (`known_roundtrip_findings`:
+    a 43-byte window for 53-byte entries); NegotiateRequest decodes `Dialects`, which reads to the end of its input
+    and is not among the lawful nested types; NegotiateResponse writes and reads two null-terminated strings
+    (literal terminator bytes, `rawDataContent` re-sliced); RenameRequest reads its attributes without checking the
+    error or using the count; WriteRequest puts its buffer ahead of the parameter block. -/
 theorem non_mirror_loops_commands :
     (commands.filter (fun c => !MirrorLoops c)).map (·.name) =
-      ["CreateTemporaryResponse", "FindCloseResponse", "FindResponse", "FindUniqueResponse", "LockAndReadResponse",
-       "NegotiateRequest", "NegotiateResponse", "OpenAndxResponse",
-       "QueryInformation2Response", "QueryInformationResponse", "ReadRawRequest", "ReadResponse", "RenameRequest",
-       "TreeConnectRequest", "WriteAndCloseRequest", "WriteAndUnlockRequest", "WriteRequest"] := by decide +kernel
+      ["FindResponse", "FindUniqueResponse", "NegotiateRequest", "NegotiateResponse",
+       "RenameRequest", "WriteRequest"] := by decide +kernel
 
 /-- **C04, generic round trip over the loop fragment.**  As `mirror_roundtrip`, for every command whose
     regenerated programs satisfy `MirrorLoops`: the only statements outside the straight-line fragment are
@@ -243,14 +241,15 @@ theorem non_mirror_loops_commands :
     elements that each is in its type's domain and is left as it is by its own `Marshal` (`tupOk`, `tupFix`: the
     loop marshals a copy, so the sender keeps the element as it was).  The codec laws are needed on the element
     types too (`Cmd.subTypesL`).  An integer emitted iff non-zero (`if c.F != 0 { … }`, last parameter field behind
-    fixed-width fields) against `if WordCount == k { … }`: both forms round-trip, `WordCount` telling which
-    (`optTrailing`: `k` is the word count with the field and not the one without).  A buffer whose length is the
+    fixed-width fields) against `c.F = 0; if WordCount == k { … }`: both forms round-trip, `WordCount` telling which
+    (`optTrailing`: `k` is the word count with the field and not the one without), whatever the receiver held.  A buffer whose length is the
     local `padLen` (`padLen := int(c.G)` / `0`, then `if padLen%2 == 1 { padLen++ }` or `if (len(P)+3)%2 == 1 { padLen = 1 }`):
     `consistent` asks that the sender's buffer has the length that arithmetic gives (`relationsHold`).
     `receiverFits` is what Unmarshal takes from the receiving structure instead of from the wire: a fixed array has
-    the length of the sender's — in Go both have the declared length `[n]T`; the model's environments are untyped —,
-    and an optional integer the sender holds as zero is zero in the receiver (a structure fresh from `New…()`; decoding
-    the short form into a structure that holds a stale value keeps it: `optional_stale_counterexample`). -/
+    the length of the sender's — in Go both have the declared length `[n]T`; the model's environments are untyped.
+    (It said more before fixes/C04-optional-offsethigh-reset.diff: an optional integer the sender holds as zero had to
+    be zero in the receiver, because the short form left a stale value in place; the fragment now admits an optional
+    integer only behind its reset, `optional_stale_reset`.) -/
 theorem mirror_loops_roundtrip {C : Codecs} {T : String → Prop} (hC : LawfulCodecs C T) (c : Cmd)
     (hm : MirrorLoops c = true) (hT : ∀ t ∈ c.subTypesL, T t) (env0 env : Env) (hc : consistent C c env = true)
     (hrecv : receiverFits c env0 env = true) :
@@ -283,7 +282,7 @@ private theorem loops_side (c : Cmd) (hmem : c ∈ commands) (hm : MirrorLoops c
     beq_iff_eq] at h
   exact ⟨h.1.1, h.1.2, h.2⟩
 
-/-- **C04 for the regenerated commands, loop fragment.**  Each of the 98 `MirrorLoops` command structures of this
+/-- **C04 for the regenerated commands, loop fragment.**  Each of the 109 `MirrorLoops` command structures of this
     tree round-trips every declared field and its AndX block, for all internally consistent field values and all
     initial states of the receiver that fit (`receiverFits`), with the C06 models as nested codecs. -/
 theorem smb_loops_roundtrip (c : Cmd) (hmem : c ∈ commands) (hm : MirrorLoops c = true) (env0 env : Env)
@@ -303,7 +302,8 @@ theorem smb_loops_reencode (c : Cmd) (hmem : c ∈ commands) (hm : MirrorLoops c
 
 /-! ## slot locality -/
 
-/-- **C04, slot locality.**  When `slotRange c f = some (lo, hi)` (straight-line marshal program,
+/-- **C04, slot locality.**  When `slotRange c f = some (lo, hi)` (straight-line marshal program — literal terminator
+    bytes in the data block and `range` loops over integer arrays apart: `layoutZ` —,
     exactly one statement touches `f`, namely the emission of a fixed-width parameter slot preceded by
     fixed-width slots only; for an AndX command the range starts behind the four AndX bytes), replacing the value of `f` by anything else for which `Marshal` still
     succeeds changes no byte of the encoded command outside `[lo, hi)` and not its length.  Any codec
@@ -313,9 +313,10 @@ theorem slot_locality (C : Codecs) (c : Cmd) (f : String) (lo hi : Nat) (h : slo
     a.length = b.length ∧ ∀ i, (i < lo ∨ hi ≤ i) → a[i]? = b[i]? :=
   slot_locality_core C c f lo hi h env v a b ha hb
 
-/-- the theorem applies to 206 (command, field) pairs of this tree -/
+/-- the theorem applies to 224 (command, field) pairs of this tree (206 before the layout was read through `layoutZ`:
+    the fixed-width fields in front of a `range` loop over an integer array, and NegotiateResponse's, are among them) -/
 theorem slot_ranges_defined :
-    (commands.flatMap (fun c => (c.fields.map (·.1)).filterMap (fun f => slotRange c f))).length = 206 := by
+    (commands.flatMap (fun c => (c.fields.map (·.1)).filterMap (fun f => slotRange c f))).length = 224 := by
   decide +kernel
 
 /-! ### non-vacuity: a concrete command and concrete field values satisfy every hypothesis -/
@@ -370,6 +371,12 @@ example : decodeCmd Manticore.SmbCodecs.std cmd_ReadAndxRequest [] [0x01, 0x04, 
 example : encodeCmd Manticore.SmbCodecs.std cmd_LogoffAndxRequest [] = .ok [0x02, 0xFF, 0, 0, 0, 0, 0] := by
   decide +kernel
 
+
+/-- a nested value decoded from the *whole* data block right behind `offset = 0` (`c.Bytes.Unmarshal(rawDataContent)`:
+    ReadResponse, LockAndReadResponse, FindCloseResponse, WriteAndUnlockRequest) is read by the static predicates in the
+    normal form `rawDataContent[offset:]` (`SmbIR.normWhole`; the run does not see the difference: `go_normWhole`) -/
+example : Mirror cmd_ReadResponse = true ∧ Mirror cmd_FindCloseResponse = true ∧ Mirror cmd_WriteAndUnlockRequest = true ∧
+    MirrorLoops cmd_LockAndReadResponse = true := by decide +kernel
 
 /-! ### non-vacuity of the loop fragment -/
 
@@ -457,18 +464,51 @@ example : consistent Manticore.SmbCodecs.std cmd_WriteAndxRequest (writeAndxEnv 
   simp [intsFit, relationsHold, cmd_WriteAndxRequest, writeAndxEnv, prologueEnv, Env.get, Env.set, wordCountOf, andxWords,
     andxField, defaultAndX, evalEnv]
   exact hax
-example : receiverFits cmd_WriteAndxRequest [("OffsetHigh", .n 0)] (writeAndxEnv 0) = true ∧
-    receiverFits cmd_WriteAndxRequest [("OffsetHigh", .n 5)] (writeAndxEnv 7) = true ∧
-    receiverFits cmd_WriteAndxRequest [("OffsetHigh", .n 5)] (writeAndxEnv 0) = false := by decide +kernel
-/-- `receiverFits` is needed (C04 finding kind `conditional-field`): the 12-word form decoded into a structure that
-    still holds `OffsetHigh = 5` leaves the 5 there -/
-theorem optional_stale_counterexample :
+/-- an optional integer asks nothing of the receiver: whatever `OffsetHigh` held, `receiverFits` holds -/
+example : receiverFits cmd_WriteAndxRequest [("OffsetHigh", .n 5)] (writeAndxEnv 0) = true ∧
+    receiverFits cmd_WriteAndxRequest [] (writeAndxEnv 7) = true := by decide +kernel
+/-- **the optional field is reset** (the repaired C04 finding kind `conditional-field`, fixes/C04-optional-offsethigh-reset.diff):
+    the 12-word form of WRITE_ANDX decoded into a structure that still holds `OffsetHigh = 5` from an earlier message
+    leaves 0 there, as it does in a fresh structure — `Unmarshal` sets the field to zero before the word-count test.
+    (Before the repair the 5 survived, and `mirror_loops_roundtrip` had to ask the receiver to hold zero.) -/
+theorem optional_stale_reset :
     (match encodeCmd Manticore.SmbCodecs.std cmd_WriteAndxRequest (writeAndxEnv 0) with
     | .ok bs => (match decodeCmd Manticore.SmbCodecs.std cmd_WriteAndxRequest [("OffsetHigh", .n 0)] bs,
                        decodeCmd Manticore.SmbCodecs.std cmd_WriteAndxRequest [("OffsetHigh", .n 5)] bs with
-        | .ok d, .ok d5 => d.get "OffsetHigh" == some (.n 0) && d5.get "OffsetHigh" == some (.n 5)
+        | .ok d, .ok d5 => d.get "OffsetHigh" == some (.n 0) && d5.get "OffsetHigh" == some (.n 0)
         | _, _ => false)
     | _ => false) = true := by decide +kernel
+/-- READ_RAW, both forms, into a receiver holding a stale `OffsetHigh`: 8 words → 0, 10 words → the value sent -/
+def readRawEnv (hi : Nat) : Env :=
+  [("FID", .n 0x1234), ("Offset", .n 1), ("MaxCountOfBytesToReturn", .n 2), ("MinCountOfBytesToReturn", .n 3),
+   ("Timeout", .n 4), ("Reserved", .n 0), ("OffsetHigh", .n hi)]
+example : MirrorLoops cmd_ReadRawRequest = true := by decide +kernel
+example : encodeCmd Manticore.SmbCodecs.std cmd_ReadRawRequest (readRawEnv 5) =
+    .ok [0x0a, 0x34, 0x12, 1, 0, 0, 0, 2, 0, 3, 0, 4, 0, 0, 0, 0, 0, 5, 0, 0, 0, 0, 0] := by decide +kernel
+example : (match encodeCmd Manticore.SmbCodecs.std cmd_ReadRawRequest (readRawEnv 0),
+                 encodeCmd Manticore.SmbCodecs.std cmd_ReadRawRequest (readRawEnv 5) with
+    | .ok b0, .ok b5 => (match decodeCmd Manticore.SmbCodecs.std cmd_ReadRawRequest [("OffsetHigh", .n 9)] b0,
+                               decodeCmd Manticore.SmbCodecs.std cmd_ReadRawRequest [("OffsetHigh", .n 9)] b5 with
+        | .ok d0, .ok d5 => b0.length == 19 && d0.get "OffsetHigh" == some (.n 0) && d5.get "OffsetHigh" == some (.n 5)
+        | _, _ => false)
+    | _, _ => false) = true := by decide +kernel
+
+/-- WRITE_AND_CLOSE, both forms, into a receiver that holds stale reserved words: 8 parameter words → zeros,
+    14 words → the three values sent -/
+def writeAndCloseEnv (r : List Nat) : Env :=
+  [("FID", .n 0x1234), ("CountOfBytesToWrite", .n 2), ("WriteOffsetInBytes", .n 7), ("LastWriteTime", .t ([1, 2], [])),
+   ("Reserved", .ns r), ("Pad", .n 0), ("Data", .b [0xAA, 0xBB])]
+example : MirrorLoops cmd_WriteAndCloseRequest = true := by decide +kernel
+example : receiverFits cmd_WriteAndCloseRequest [("Reserved", .ns [9, 9, 9])] (writeAndCloseEnv [0, 0, 0]) = true := by
+  decide +kernel
+example : (match encodeCmd Manticore.SmbCodecs.std cmd_WriteAndCloseRequest (writeAndCloseEnv [0, 0, 0]),
+                 encodeCmd Manticore.SmbCodecs.std cmd_WriteAndCloseRequest (writeAndCloseEnv [1, 0, 3]) with
+    | .ok b0, .ok b3 => (match decodeCmd Manticore.SmbCodecs.std cmd_WriteAndCloseRequest [("Reserved", .ns [9, 9, 9])] b0,
+                               decodeCmd Manticore.SmbCodecs.std cmd_WriteAndCloseRequest [("Reserved", .ns [9, 9, 9])] b3 with
+        | .ok d0, .ok d3 => b0.head? == some 8 && b3.head? == some 14 &&
+            d0.get "Reserved" == some (.ns [0, 0, 0]) && d3.get "Reserved" == some (.ns [1, 0, 3])
+        | _, _ => false)
+    | _, _ => false) = true := by decide +kernel
 
 /-- SESSION_SETUP_ANDX response: one parameter word, so `(len(P)+3)%2 == 1` and the decoder expects one pad byte -/
 def sessionRespEnv : Env :=
